@@ -128,7 +128,7 @@ def parse_unit(path):
             continue
         # inside fn block
         first = s.split(None, 1)[0] if s else ''
-        if first in DIRECTIVES and not ln.startswith('        '):
+        if (first in DIRECTIVES or re.match(r'rewrite\[\d+\]$', first)) and not ln.startswith('        '):
             flush()
             rest = s[len(first):].strip()
             if first == 'end':
@@ -170,12 +170,15 @@ def parse_unit(path):
                 c = Clause('loop-' + kind, f'{cur.qual}.loop{n}.{cid}', props, '', loop=n)
                 cur.clauses.append(c)
                 pending = ((lambda c: lambda t: setattr(c, 'text', t))(c), [text])
-            elif first in ('rewrite', 'rewrite*'):
+            elif first in ('rewrite', 'rewrite*') or re.match(r'rewrite\[\d+\]$', first):
                 m = re.match(r'(R\w+)\s*:\s*(.*)$', rest, re.S)
                 if not m:
                     err('bad rewrite')
                 rule = m.group(1)
                 multi = first.endswith('*')
+                mo = re.match(r'rewrite\[(\d+)\]$', first)
+                if mo:
+                    multi = ('nth', int(mo.group(1)))
 
                 def setter(t, rule=rule, multi=multi, fn=cur):
                     mm = re.match(r'\s*`(.*?)`\s*=>\s*`(.*)`\s*$', t, re.S)
@@ -443,7 +446,9 @@ def assemble(unit, canary=False):
             # tuple struct with one private field
             text = re.sub(r'^(struct\s+\w+(?:<[^>]*>)?)\((?!pub\b)', r'\1(pub ', text)
             text = text.replace("<'static>", '<\'static>')
+            text = re.sub(r'\bcrate::(?:[a-z_][a-z0-9_]*::)+', '', text)
             text = re.sub(r"Box<dyn Iterator<Item\s*=\s*usize>(\s*\+\s*'\w+)?>", 'AbsIter', text)
+            text = re.sub(r"Box<dyn Iterator<Item\s*=\s*&'a Operation>(\s*\+\s*'\w+)?>", "AbsOpsIter<'a>", text)
             for o in opts:
                 if o.startswith('sub:'):
                     old, new = o[4:].split('=>')
@@ -534,7 +539,10 @@ def emit_fn(asm, unit, fs, src, canary):
     sig_return_edit(src, ed, fn_kw, bo, fs.ret)
     # per-site rewrites
     for rule, old, new, multi in fs.rewrites:
-        if multi:
+        if isinstance(multi, tuple):
+            j = find_unique(src, (old, multi[1]), fn_kw, bc + 1, f'rewrite {rule} in {fs.qual}')
+            ed.add(j, j + len(old), new, ('rw', rule))
+        elif multi:
             start, cnt = fn_kw, 0
             while True:
                 j = src.text.find(old, start, bc + 1)
@@ -639,7 +647,7 @@ def emit_fn(asm, unit, fs, src, canary):
     if emit:
         out.add_text(emit + ' {', ('gen',))
     for a in fs.attrs:
-        out.add_text(a, ('gen',))
+        out.add_text(a, ('attr', fs.qual))
     start_line = len(out.lines) + 1
     pieces = [('pub ', ('gen',))] + pieces
     out.add_pieces(pieces)
@@ -655,7 +663,7 @@ def emit_fn(asm, unit, fs, src, canary):
         'fn': fs.qual, 'file': 'regexml/src/' + fs.file,
         'lines': [src.line_of(fn_kw), src.line_of(bc)], 'sha256': fhash,
         'props': fs.props, 'gen_lines': [start_line, end_line],
-        'clauses': [c.cid for c in fs.clauses], 'rewrites': sorted(set(log)), 'loops': len(loops),
+        'clauses': [c.cid for c in fs.clauses], 'rewrites': sorted(set(log)), 'loops': len(loops), 'attrs': list(fs.attrs),
     })
     for r in log:
         asm.rewrites.append((fs.qual, r))
